@@ -22,5 +22,11 @@ func runShared(c *caseWriter) (string, bool, map[string]int) {
 			emit(c, st, s)
 		}
 	}
+	for _, s := range unescapeProbes() {
+		emit(c, "m_html_unescape", s)
+	}
+	for _, s := range all {
+		emit(c, "m_html_unescape", s)
+	}
 	return "shared model correspondence", false, nil
 }
